@@ -224,6 +224,11 @@ func c02(tier string) []*explore.Scenario {
 		c02One([]streamCase{{"Bidi", "pingpong", "echo", 2, 0, 0}}, 0, 1), c02One([]streamCase{{"Bidi", "sendall", "retearly", 2, 1, 0}}, 64, 1),
 		c02One([]streamCase{{"Bidi", "concurrent", "echo", 2, 0, 0}}, 64, 1), c02One([]streamCase{{"SStream", "sendall", "burst", 1, 2, 0}}, 0, 1),
 		c02One([]streamCase{{"CStream", "sendall", "collect", 2, 0, 0}}, 64, 1))...)
+	// one stream of every kind on one connection (each kind is a method of its own: whatever an option sets up
+	// per server or per connection - interceptor chains, stats, routing - must not be tied to the first method served)
+	mixedKinds := []streamCase{{"Bidi", "pingpong", "echo", 1, 0, 0}, {"CStream", "sendall", "collect", 2, 0, 0}, {"SStream", "sendall", "burst", 1, 2, 0}}
+	out = append(out, withConfig(env.ConfigKinds, c02One(mixedKinds, 64, 0))...)
+	out = append(out, withConfig([]string{"chain", "chain+stats", "interceptors"}, c02One(mixedKinds, 64, 1), c02One([]streamCase{mixedKinds[2], mixedKinds[1], mixedKinds[0]}, 0, 1))...)
 	// a failed stream call (of the caller's own making) followed by walking away must not stall the connection's other calls
 	out = append(out, failedCallAbandoned("C02", "recv-into-non-message", 1), failedCallAbandoned("C02", "send-unencodable", 1))
 	// over the HTTP transport: a POST whose response is lost must not lead to a duplicated message
